@@ -185,6 +185,7 @@ class Registry:
         self.sym_int = {}
         self.sym_truth = {}
         self.sym_float = {}
+        self.sym_eq = []          # equality models for custom symbolic values: fn(ctx, a, b) -> bool / z3 Bool / NotImplemented
         self.sym_calls = {}       # Sym subclass -> call model(interp, obj, args, kwargs)
         self.ctor_models = {}     # class -> assumed constructor model(interp, args, kwargs)
 
